@@ -1,5 +1,6 @@
 //! hvc — one binary, one sub-command per property. See /verif/DESIGN.md.
 mod props;
+mod plans;
 mod report;
 mod sched;
 mod refs;
@@ -32,7 +33,9 @@ fn main() {
     match id.as_str() {
         "C05" => props::c05::run(cx),
         "C08" => props::c08::run(cx),
+        "C10" => props::c10::run(cx),
         "C13" => props::c13::run(cx),
+        "C18" => props::c18::run(cx),
         _ => {
             eprintln!("hvc: no check for {}", id);
             std::process::exit(2);
